@@ -15,15 +15,8 @@ Oracle: three-valued reference model (see gen_c04 in vf/lab.py): overruling sing
         component exactly once inside the dispatcher with reply and out arguments carried back.
 """
 from . import labcommon
-from .. import modelgen as M
 
 PID = 'C04'
-
-
-def env_for(thorough):
-    if thorough:
-        return {'VF_C04_DEPTH': '4', 'VF_C04_CLIENTS': '3', 'VF_C04_BFS_DEPTH': '8'}
-    return {'VF_C04_DEPTH': '3', 'VF_C04_CLIENTS': '2', 'VF_C04_BFS_DEPTH': '6'}
 
 
 def judge(case):
@@ -31,9 +24,7 @@ def judge(case):
 
 
 def explore(ctx):
-    base = dict(M.BASE_POINT)
-    base['mc'] = 'p0:0'
-    labcommon.explore_lab(ctx, PID, 1, 2, env_extra=env_for(ctx.thorough), need_mc=True, base=base)
+    labcommon.explore_lab(ctx, PID, 1, 2, need_mc=True)
     ctx.rule = ('every multi-client model point within k deviations of the multi-client base point; inside each '
                 'compiled program every claim/release/other history (see docstring) replayed on a fresh shell; '
                 'states = model points (the per-program history counts are in the assertion details)')
